@@ -243,7 +243,8 @@ def do_replay(prop, components, path):
         vlib.regenerate()
         vlib.lake_build(["gnetmodel"])
     comp.prepare()
-    drv, err = vlib.build_driver(comp.name, tuple(payload.get("tags", comp.tags)), comp.overlay, suffix=comp.suffix)
+    drv, err = vlib.build_driver(comp.name, tuple(payload.get("tags", comp.tags)), comp.overlay, suffix=comp.suffix,
+                                 race=getattr(comp, "race", False))
     if drv is None:
         print("driver does not build:", err)
         return 2
